@@ -43,7 +43,7 @@ def rand_expr(rng, depth, real):
         return ('func', fn) + tuple(sub() for _ in range(rng.choice((1, 1, 2))))
     if r < 0.50:
         v = rng.choice((X, Y))
-        return ('derivative', ('func', rng.choice(('f', 'g')), v, rng.choice((X, Y, Z))), v)
+        return ('derivative', ('func', rng.choice(('f', 'g')), v, rng.choice([q for q in (X, Y, Z) if q != v])), v)
     if r < 0.56:
         # unevaluated substitutions: Subs objects whose bound variable also occurs in the substitution point (f'(x) at x -> x**2),
         # produced both by the library (diff then subs) and directly
